@@ -574,6 +574,8 @@ func TestVF_C31_Rewrite(t *testing.T) {
 		info := &c31GenInfo{allowBad: rapid.IntRange(0, 7).Draw(t, "allowBadFlags") == 0}
 		flagBias := rapid.SampledFrom([]int{0, 2, 4, 4, 6, 9}).Draw(t, "flagBias")
 
+		hugeBatch := rapid.IntRange(0, 19).Draw(t, "hugeBatch") == 0 // 1 request in 20 carries one batch of 4095..9000 tiny records
+		hugeDone := false
 		nt := rapid.SampledFrom([]int{1, 1, 2, 3}).Draw(t, "nTopics")
 		topics := make([]c31Topic, nt)
 		req := &kmsg.ProduceRequest{Acks: 1, TimeoutMillis: 5000}
@@ -588,18 +590,49 @@ func TestVF_C31_Rewrite(t *testing.T) {
 				part := c31Part{index: int32(rapid.IntRange(0, 40).Draw(t, "partIndex"))}
 				nb := rapid.SampledFrom([]int{0, 1, 1, 1, 2, 2, 3}).Draw(t, "nBatches")
 				for bi := 0; bi < nb; bi++ {
-					nr := rapid.OneOf(rapid.IntRange(1, 4), rapid.IntRange(1, 20)).Draw(t, "nRecords")
-					recs := make([]vfkit.Record, nr)
-					big := rapid.IntRange(0, 7).Draw(t, "bigValues") == 0
+					var recs []vfkit.Record
 					fl := 0
-					for ri := range recs {
-						recs[ri] = c31GenRecord(t, ri, defaultAlg, flagBias, big, info)
-						if c31IsFlagged(recs[ri]) {
-							fl++
+					nr := 0
+					codecChoices := []int{0, 0, 0, 0, 2, 2, 2, 2, 3, 3, 3, 3, 1, 4}
+					if hugeBatch && !hugeDone {
+						// size class "huge batch": thousands of tiny records (producers batch up to
+						// batch.size bytes, so > 4096 small records per batch is ordinary), 1-3 flagged
+						hugeDone = true
+						nr = rapid.SampledFrom([]int{4095, 4096, 4097, 4097, 6000, 9000}).Draw(t, "hugeRecords")
+						recs = make([]vfkit.Record, nr)
+						for ri := range recs {
+							recs[ri] = vfkit.Record{OffsetDelta: int32(ri), TsDelta: int64(ri), Value: []byte{byte(ri), byte(ri >> 8)}}
+							if ri%1000 == 7 {
+								recs[ri].Key = []byte{byte(ri >> 4)}
+								recs[ri].Headers = []vfkit.RecHeader{{Key: "app", Value: []byte("x")}}
+							}
+						}
+						nflag := rapid.IntRange(1, 3).Draw(t, "hugeFlagged")
+						for k := 0; k < nflag; k++ {
+							idx := rapid.SampledFrom([]int{0, 1, 4094, 4095, nr - 1, nr - 2, nr / 2}).Draw(t, "hugeFlagIndex")
+							if idx >= nr {
+								idx = nr - 1
+							}
+							if !c31IsFlagged(recs[idx]) {
+								recs[idx].Headers = append(recs[idx].Headers, vfkit.RecHeader{Key: "LFS_BLOB", Value: []byte{}})
+								fl++
+							}
+						}
+						codecChoices = []int{0, 0, 2, 3}
+						st.Class(fmt.Sprintf("huge-batch:%d-records", nr))
+					} else {
+						nr = rapid.OneOf(rapid.IntRange(1, 4), rapid.IntRange(1, 20)).Draw(t, "nRecords")
+						recs = make([]vfkit.Record, nr)
+						big := rapid.IntRange(0, 7).Draw(t, "bigValues") == 0
+						for ri := range recs {
+							recs[ri] = c31GenRecord(t, ri, defaultAlg, flagBias, big, info)
+							if c31IsFlagged(recs[ri]) {
+								fl++
+							}
 						}
 					}
 					// gzip/zstd are rarer: the code under test builds a fresh encoder per rewritten batch (tens of ms)
-					b := c31Batch{codec: rapid.SampledFrom([]int{0, 0, 0, 0, 2, 2, 2, 2, 3, 3, 3, 3, 1, 4}).Draw(t, "codec"), flagged: fl}
+					b := c31Batch{codec: rapid.SampledFrom(codecChoices).Draw(t, "codec"), flagged: fl}
 					first := rapid.SampledFrom([]int64{0, 1, 1700000000000, -1}).Draw(t, "firstTs")
 					nbh := vfkit.NewBatch(rapid.SampledFrom([]int64{0, 0, 5, 1 << 33}).Draw(t, "baseOffset"), first, recs)
 					// NewBatch renumbers offset deltas 0..n-1 and derives lastOffsetDelta/numRecords
